@@ -271,17 +271,16 @@ def approxStep (x : Rat) : Rat :=
   if x < 1 then 1 / 1000 else if x < 10 then 1 / 100 else if x < 60 then 1 / 10
   else if x < 36000 then 1 else if x < 864000 then 60 else 3600
 
-/- Full statement (not proved; checked by the oracle on the explored inputs only):
-     ∀ x ≥ 0 (int or float), ∀ whitespace sep,
-       convert (timestrApprox x sep) = approxValue x  ∧  |approxValue x - x| < approxStep x.
-   Proved below: the error bound (in fact half a step) for the value `timestr_approx` prints, for every
-   integer argument and for every float argument from 10 hours on, i.e. wherever the chain of decimal
-   roundings below one minute is not involved; including the corner where rounding to minutes reaches
-   exactly 10 days and the value is rounded again to hours. -/
-theorem timestr_approx_error_partial (x : Secs)
-    (hx : (∃ n : Nat, x = .int n) ∨ (∃ q : Rat, x = .float q ∧ 36000 ≤ q)) :
-    let v : Rat := match x with | .int n => (n : Rat) | .float q => q
-    approxValue x - v < approxStep v ∧ v - approxValue x < approxStep v := by
+/-- **timestr_approx**: for every non-negative argument (an int, or the exact value of a float) and
+    every whitespace separator the function prints a string that `convert` maps back to the value
+    `approxValue x` it stands for (the inverse relation for the approximate rendering), and that value
+    differs from the argument by less than the documented rounding step of the argument's magnitude
+    class (in fact by at most half of it) – including the carries from one class into the next
+    (0.9996 → `1.00s`, 59.96 → `1m0s`, 35999.6 → `10h0m`, 863990 → `10d0h`). -/
+theorem timestr_approx_error (x : Secs) (hx : 0 ≤ x.val) (sep : List Char) (hs : allWs sep) :
+    ∃ txt, timestrApprox x sep = some txt ∧ convert txt = .ok (approxValue x) ∧
+      approxValue x - x.val < approxStep x.val ∧ x.val - approxValue x < approxStep x.val := by
+  -- the coarse part alone (ints, floats from 10 hours on)
   have key : ∀ a : AVal, 0 ≤ a.v →
       (approxCoarse a).a.v - a.v < approxStep a.v ∧ a.v - (approxCoarse a).a.v < approxStep a.v := by
     intro a ha
@@ -305,22 +304,74 @@ theorem timestr_approx_error_partial (x : Secs)
         have n3 : ¬ a.v < 60 := by grind
         simp only [n1, n2, n3, c1, c2, ↓reduceIte]
         constructor <;> grind
-  rcases hx with ⟨n, rfl⟩ | ⟨q, rfl, hq⟩
-  · have hn0 : (0 : Rat) ≤ ((n : Int) : Rat) := by
-      have : (0 : Rat) ≤ (n : Rat) := by exact_mod_cast Nat.zero_le n
-      rw [Rat.intCast_natCast]; exact this
-    have := key ⟨((n : Int) : Rat), false, 0⟩ hn0
-    simpa [approxValue] using this
-  · have n1 : ¬ q < 1 := by grind
-    have n2 : ¬ (1 ≤ q ∧ q < 10) := by grind
-    have n3 : ¬ (10 ≤ q ∧ q < 60) := by grind
-    have c : ((10 * Gen.secPerHour : Nat) : Rat) = 36000 := by decide
-    have n4 : ¬ (60 ≤ q ∧ q < ((10 * Gen.secPerHour : Nat) : Rat)) := by rw [c]; grind
-    have hf : approxFloat q = ⟨q, true, 0⟩ := by
-      unfold approxFloat
-      simp only [n1, n2, n3, n4, ↓reduceIte]
-    have := key ⟨q, true, 0⟩ (by grind)
-    simpa [approxValue, hf] using this
+  -- floats below 10 hours: the value delivered by the decimal roundings is not touched any more
+  have small : ∀ (q : Rat) (a : AVal) (half : Rat), FloatSpec q a half → half + half ≤ approxStep q →
+      0 < half →
+      (approxCoarse a).a.v - q < approxStep q ∧ q - (approxCoarse a).a.v < approxStep q := by
+    intro q a half ⟨h0, b1, b2, _, hc⟩ hstep hpos
+    have hv : (approxCoarse a).a.v = a.v := by
+      rcases hc with hc | hc
+      · exact (approxCoarse_bounds a h0).1 hc
+      · rw [hc]; exact approxCoarse_36000.trans (by decide)
+    rw [hv]
+    constructor <;> grind
+  cases x with
+  | int n =>
+    have hn : 0 ≤ n := by
+      have : (0 : Rat) ≤ ((n : Int) : Rat) := hx
+      exact_mod_cast this
+    have hnot : ¬ n < 0 := by omega
+    have hgrid : OnGrid ⟨(n : Rat), false, 0⟩ := by
+      refine ⟨n.toNat, ?_⟩
+      simp only [Bool.false_eq_true, ↓reduceIte]
+      have e1 : ((10 ^ 0 : Nat) : Rat) = 1 := by decide
+      have e2 : ((n.toNat : Nat) : Rat) = ((n : Int) : Rat) := by
+        have := Int.toNat_of_nonneg hn
+        exact_mod_cast congrArg (fun z : Int => (z : Rat)) this
+      rw [e1, e2]
+      grind
+    refine ⟨approxRender (approxCoarse ⟨(n : Rat), false, 0⟩) sep, by simp [timestrApprox, hnot], ?_, ?_⟩
+    · exact convert_approxRender_coarse _ hx (fun _ => hgrid) sep hs
+    · exact key ⟨(n : Rat), false, 0⟩ hx
+  | float q =>
+    have hq : 0 ≤ q := hx
+    have hnot : ¬ q < 0 := Rat.not_lt.mpr hq
+    refine ⟨approxRender (approxCoarse (approxFloat q)) sep, by simp [timestrApprox, hnot], ?_, ?_⟩
+    · show convert (approxRender (approxCoarse (approxFloat q)) sep) =
+        .ok (approxCoarse (approxFloat q)).a.v
+      by_cases c : q < 36000
+      · have spec : ∃ half, FloatSpec q (approxFloat q) half := by
+          by_cases c1 : q < 1
+          · exact ⟨_, class1 q hq c1⟩
+          · by_cases c2 : q < 10
+            · exact ⟨_, class2 q (by grind) c2⟩
+            · by_cases c3 : q < 60
+              · exact ⟨_, class3 q (by grind) c3⟩
+              · exact ⟨_, class4 q (by grind) c⟩
+        obtain ⟨half, h0, _, _, hg, _⟩ := spec
+        exact convert_approxRender_coarse _ h0 (fun _ => hg) sep hs
+      · have hl := approxFloat_large q (by grind)
+        rw [hl]
+        exact convert_approxRender_coarse ⟨q, true, 0⟩ hq (fun h => absurd h c) sep hs
+    · show (approxCoarse (approxFloat q)).a.v - q < approxStep q ∧
+        q - (approxCoarse (approxFloat q)).a.v < approxStep q
+      by_cases c1 : q < 1
+      · have hs1 : approxStep q = 1 / 1000 := by unfold approxStep; rw [if_pos c1]
+        exact small q _ _ (class1 q hq c1) (by rw [hs1]; grind) (by grind)
+      · by_cases c2 : q < 10
+        · have hs2 : approxStep q = 1 / 100 := by unfold approxStep; rw [if_neg c1, if_pos c2]
+          exact small q _ _ (class2 q (by grind) c2) (by rw [hs2]; grind) (by grind)
+        · by_cases c3 : q < 60
+          · have hs3 : approxStep q = 1 / 10 := by
+              unfold approxStep; rw [if_neg c1, if_neg c2, if_pos c3]
+            exact small q _ _ (class3 q (by grind) c3) (by rw [hs3]; grind) (by grind)
+          · by_cases c4 : q < 36000
+            · have hs4 : approxStep q = 1 := by
+                unfold approxStep; rw [if_neg c1, if_neg c2, if_neg c3, if_pos c4]
+              exact small q _ _ (class4 q (by grind) c4) (by rw [hs4]; grind) (by grind)
+            · have hl := approxFloat_large q (by grind)
+              rw [hl]
+              exact key ⟨q, true, 0⟩ hq
 
 example : timestrApprox (.int 863990) [] = some ['1', '0', 'd', '0', 'h'] := by decide +kernel
 example : timestrApprox (.float (9996 / 1000)) [] = some ['1', '0', '.', '0', 's'] := by decide +kernel
